@@ -250,6 +250,23 @@ where
     I: Iterator<Item = E>,
 {
     unsafe fn emplace_unchecked(self, bytes: &mut [u8]) -> Result<&mut FlexVec<T, L>, Error> {
+        let start = bytes.as_mut_ptr();
+        let result = unsafe { self.emplace_items(bytes) };
+        if result.is_err() {
+            // Items may have been written partially: leave a valid (empty) vector behind.
+            unsafe { (start as *mut L).write(L::zero()) };
+        }
+        result
+    }
+}
+
+impl<T, E, I> FromIterator<T, E, I>
+where
+    T: Flat + ?Sized,
+    E: Emplacer<T>,
+    I: Iterator<Item = E>,
+{
+    unsafe fn emplace_items<L: Flat + Length>(self, bytes: &mut [u8]) -> Result<&mut FlexVec<T, L>, Error> {
         let offset_size = FlexVec::<T, L>::OFFSET_SIZE;
         let vec = FlexVec::<T, L>::from_mut_bytes_unchecked(bytes);
 
